@@ -113,9 +113,20 @@ def key_is_total(keyexpr):
     """sorted(..., key=K): K is total when the unique `.id` is part of it."""
     if keyexpr is None:
         return False
-    if isinstance(keyexpr, ast.Lambda):
+    if isinstance(keyexpr, ast.Lambda) and len(keyexpr.args.args) == 1:
+        x = keyexpr.args.args[0].arg
+
+        def is_id(e):
+            # the id itself (or an injective wrapping of it): a value COMPUTED from the id -- its last
+            # component, its length, int(...) of a part -- can tie for different ids
+            while isinstance(e, ast.Call) and isinstance(e.func, ast.Name) and e.func.id in ('str', 'repr', 'tuple') \
+                    and len(e.args) == 1 and not e.keywords:
+                e = e.args[0]
+            return isinstance(e, ast.Attribute) and e.attr in ('id', 'tid') and isinstance(e.value, ast.Name) and e.value.id == x
         body = keyexpr.body
-        return any(isinstance(n, ast.Attribute) and n.attr in ('id', 'tid') for n in ast.walk(body))
+        if isinstance(body, (ast.Tuple, ast.List)):
+            return any(is_id(c) for c in body.elts)
+        return is_id(body)
     if isinstance(keyexpr, ast.Call) and call_name(keyexpr) == 'attrgetter':
         return any(isinstance(a, ast.Constant) and a.value in ('id', 'tid') for a in keyexpr.args)
     return False
@@ -366,8 +377,22 @@ RANDOM_DRAWS = {'random', 'randint', 'choice', 'choices', 'shuffle', 'sample', '
                 'exponential', 'standard_normal', 'integers'}
 
 
+GENERATORS = ('default_rng', 'RandomState', 'Generator', 'Random', 'SeedSequence')
+
+
 def check_d2(res, f):
     mod_imports = f.module.imports
+    # a generator kept in object state: its position in the stream survives the call -- across the tasks
+    # that share the object (copy.copy shares it too) and across two runs in one interpreter
+    for n in walk_no_nested(f.node):
+        if isinstance(n, (ast.Assign, ast.AnnAssign)) and isinstance(n.value, ast.Call) and call_name(n.value) in GENERATORS:
+            tg = n.targets if isinstance(n, ast.Assign) else [n.target]
+            for t in tg:
+                if isinstance(t, (ast.Attribute, ast.Subscript)):
+                    res.bad('C10.D2', f, n, 'a generator is created for the draw at hand, not kept in %s' % short(ast.unparse(t), 40),
+                            'the random generator is stored in %s: every draw advances one shared stream, so the values a run sees '
+                            'depend on how many draws were made before it (a second run with the same configuration and seed in the '
+                            'same interpreter, or a copied model, gives different tables)' % short(ast.unparse(t), 40))
     for n in walk_no_nested(f.node):
         if not isinstance(n, ast.Call):
             continue
